@@ -127,6 +127,10 @@ def attach(msg, data, source='bytes', tmpdir=None):
         msg.data_set = bytes(data)
     elif source == 'bytesio':
         msg.data_set = io.BytesIO(bytes(data))
+    elif source == 'bytesio-offset':
+        # an in-memory file object positioned behind a header of its own (the data set starts at the current position)
+        msg.data_set = io.BytesIO(b'\x5A' * 192 + bytes(data))
+        msg.data_set.seek(192)
     elif source == 'offset':
         # a real file whose data set starts at the current position, not at 0 (as storage_scu passes a Part-10
         # file positioned behind its meta header)
